@@ -193,8 +193,57 @@ class Bounds:
             return ('B', keys.pop(), elems.pop())
         return ('B', keys.pop(), 'mixed')
 
+    env = None     # parameter bindings while a small helper function is being inlined
+
+    def helper(self, call):
+        """Func of a plain-name call to a helper defined in the analysed function or at module level."""
+        if not (isinstance(call.func, ast.Name) and not call.keywords):
+            return None
+        m = self.C.fn.module
+        f = m.funcs.get(f'{self.C.fn.qualname}.<locals>.{call.func.id}') or m.funcs.get(call.func.id)
+        if f is None:
+            return None
+        a = f.node.args
+        if a.vararg or a.kwarg or a.kwonlyargs or a.defaults or len(a.args) != len(call.args):
+            return None
+        # only `if`/`return` statements: a pure selection between expressions of the parameters
+        for st in astx.walk_stmts(astx.strip_doc(f.node.body)):
+            if not isinstance(st, (ast.If, ast.Return)):
+                return None
+        params = {x.arg for x in a.args}
+        for st in astx.walk_stmts(f.node.body):
+            if isinstance(st, ast.Return) and st.value is not None:
+                for nm in astx.names(st.value):
+                    if nm not in params and nm not in _NP:
+                        return None
+        return f
+
     def resolve(self, e, at, seen=()):
         C = self.C
+        if isinstance(e, ast.Name) and self.env and e.id in self.env:
+            expr, at0, outer = self.env[e.id]
+            saved, self.env = self.env, outer
+            try:
+                return self.resolve(expr, at0, seen)
+            finally:
+                self.env = saved
+        if isinstance(e, ast.Call) and self.helper(e) is not None:
+            f = self.helper(e)
+            rets = [st.value for st in astx.walk_stmts(f.node.body) if isinstance(st, ast.Return)]
+            if not rets or any(r is None for r in rets):
+                return None
+            saved = self.env
+            self.env = {x.arg: (a_, at, saved) for x, a_ in zip(f.node.args.args, e.args)}
+            try:
+                rs = []
+                for rv in rets:
+                    r = self.resolve(rv, at, seen)
+                    if r == CARRIED:
+                        return CARRIED
+                    rs.append(r)
+            finally:
+                self.env = saved
+            return self.merge(rs)
         if isinstance(e, ast.Subscript):
             k = astx.const_str(e.slice)
             if isinstance(e.value, ast.Name) and e.value.id == self.meta and k in ('lower', 'upper'):
@@ -206,6 +255,8 @@ class Bounds:
                 return CARRIED
             if base and base[0] == 'B' and base[2] is None and not isinstance(e.slice, ast.Slice):
                 s = e.slice
+                if isinstance(s, ast.Name) and self.env and s.id in self.env:
+                    s = self.env[s.id][0]       # helper parameter -> the argument it was called with
                 if isinstance(s, ast.Name):
                     el = ('var', s.id)
                 elif isinstance(s, ast.Constant):
@@ -3542,4 +3593,62 @@ selftest(
          "self._problem().model.set_val(var, val, units=units, indices=idxs)"),
     Mutant('slots-consumer-keywords-swapped', AD, "self._problem().model.set_val(var, val, units, idxs)",
            "self._problem().model.set_val(var, val, units=idxs, indices=units)", 'C23.slots'),
+)
+
+
+# =========================================================================== self-test (fourth robustness round)
+_TAB_DG_FULL = ("        row = 0\n        for name, meta in design_vars.items():\n            size = _get_size(meta)\n\n"
+                "            for k in range(size):\n"
+                "                lower = meta['lower']\n                if isinstance(lower, np.ndarray):\n                    lower = lower[k]\n\n"
+                "                upper = meta['upper']\n                if isinstance(upper, np.ndarray):\n                    upper = upper[k]\n\n"
+                "                levels = self._get_dv_levels(name)\n"
+                "                values[row, 0:levels] = np.linspace(lower, upper, num=levels)\n\n                row += 1\n")
+
+
+def _tab_helper(ret="bound[j]", up="_bound_entry(meta['upper'], j)", step="table_row = table_row + 1"):
+    return ("        def _bound_entry(bound, j):\n            if not isinstance(bound, np.ndarray):\n                return bound\n"
+            f"            return {ret}\n\n"
+            "        table_row = 0\n        for name in design_vars:\n            meta = design_vars[name]\n"
+            "            dv_size = _get_size(meta)\n\n            for j in range(dv_size):\n"
+            "                lower = _bound_entry(meta['lower'], j)\n"
+            f"                upper = {up}\n\n"
+            "                nlevels = self._get_dv_levels(name)\n"
+            "                values[table_row, 0:nlevels] = np.linspace(lower, upper, num=nlevels)\n\n"
+            f"                {step}\n")
+
+
+_LHS_DG_FULL = ("        for row in doe:\n            retval = []\n            col = 0\n"
+                "            for name, meta in design_vars.items():\n                size = meta['size']\n"
+                "                sample = row[col:col + size]\n\n"
+                "                lower = meta['lower']\n                if not isinstance(lower, np.ndarray):\n                    lower = lower * np.ones(size)\n\n"
+                "                upper = meta['upper']\n                if not isinstance(upper, np.ndarray):\n                    upper = upper * np.ones(size)\n\n"
+                "                val = lower + sample * (upper - lower)\n\n                retval.append((name, val))\n                col += size\n\n"
+                "            yield retval\n")
+
+
+def _lhs_helper(up="_full_bound(meta['upper'], size)", span="upper - lower", nxt="start = end"):
+    return ("        for unit_sample in doe:\n            retval = []\n            start = 0\n"
+            "            for name, meta in design_vars.items():\n                size = meta['size']\n"
+            "                end = start + size\n                sample = unit_sample[start:end]\n\n"
+            "                lower = _full_bound(meta['lower'], size)\n"
+            f"                upper = {up}\n\n"
+            f"                span = {span}\n                val = lower + sample * span\n\n"
+            f"                retval.append((name, val))\n                {nxt}\n\n"
+            "            yield retval\n\n\n"
+            "def _full_bound(bound, size):\n    if isinstance(bound, np.ndarray):\n        return bound\n"
+            "    return bound * np.ones(size)\n")
+
+
+selftest(
+    'C23',
+    # per-element bound through a local helper, keys + lookup, `row = row + 1` (benign C23_b4_1)
+    Twin('twin-table-bound-helper', DG, _TAB_DG_FULL, _tab_helper()),
+    Mutant('table-bound-helper-elem-zero', DG, _TAB_DG_FULL, _tab_helper(ret="bound[0]"), 'C23.table'),
+    Mutant('table-bound-helper-upper-from-lower', DG, _TAB_DG_FULL, _tab_helper(up="_bound_entry(meta['lower'], j)"), 'C23.table'),
+    Mutant('table-bound-helper-no-step', DG, _TAB_DG_FULL, _tab_helper(step="pass"), 'C23.table'),
+    # broadcast through a module-level helper, span / end temporaries, `start = end` (benign C23_b4_2)
+    Twin('twin-lhs-bound-helper', DG, _LHS_DG_FULL, _lhs_helper()),
+    Mutant('lhs-bound-helper-upper-from-lower', DG, _LHS_DG_FULL, _lhs_helper(up="_full_bound(meta['lower'], size)"), 'C23.lhs'),
+    Mutant('lhs-bound-helper-span-reversed', DG, _LHS_DG_FULL, _lhs_helper(span="lower - upper"), 'C23.lhs'),
+    Mutant('lhs-bound-helper-start-stuck', DG, _LHS_DG_FULL, _lhs_helper(nxt="pass"), 'C23.lhs'),
 )
